@@ -405,7 +405,17 @@ impl BudgetEnforcer {
                     }
                 }
             }
-            Event::DocumentEnd => {}
+            Event::DocumentEnd => {
+                // The alias/anchor ratio is a per-document quantity under the per-document
+                // policy: judge it when the document ends, so that a document is accepted or
+                // rejected wherever it stands in the stream (`finalize` would only ever see
+                // the counters of the last document).
+                if self.policy == EnforcingPolicy::PerDocument {
+                    if let Some(breach) = self.ratio_breach() {
+                        return Err(breach);
+                    }
+                }
+            }
             Event::Nothing => {}
             Event::StreamStart | Event::StreamEnd => {}
         }
@@ -576,25 +586,42 @@ impl BudgetEnforcer {
     }
 
     /// Finalize the enforcement, performing post-scan heuristics (like alias/anchor ratio).
+    ///
+    /// Under the per-document policy the alias/anchor ratio has already been judged at every
+    /// `DocumentEnd` (see [`observe`](Self::observe)); it is not judged again here, where the
+    /// counters may belong to a document that was abandoned half-way.
     pub fn finalize(mut self) -> BudgetReport {
         self.report.anchors = self.defined_anchors.len();
 
-        if self.budget.enforce_alias_anchor_ratio
-            && self.report.aliases >= self.budget.alias_anchor_min_aliases
-            && (self.report.anchors == 0
-                || self.report.aliases
-                    > self
-                        .budget
-                        .alias_anchor_ratio_multiplier
-                        .saturating_mul(self.report.anchors))
-        {
-            self.report.breached = Some(BudgetBreach::AliasAnchorRatio {
-                aliases: self.report.aliases,
-                anchors: self.report.anchors,
-            });
+        if self.policy != EnforcingPolicy::PerDocument {
+            if let Some(breach) = self.ratio_breach() {
+                self.report.breached = Some(breach);
+            }
         }
 
         self.report
+    }
+
+    /// The alias/anchor ratio heuristic over the counters as they stand: `Some(breach)` when
+    /// [`Budget::enforce_alias_anchor_ratio`] is set, at least `alias_anchor_min_aliases`
+    /// aliases were seen and they exceed `alias_anchor_ratio_multiplier × anchors` (or no
+    /// anchor was defined at all).
+    fn ratio_breach(&self) -> Option<BudgetBreach> {
+        let aliases = self.report.aliases;
+        let anchors = self.defined_anchors.len();
+        if self.budget.enforce_alias_anchor_ratio
+            && aliases >= self.budget.alias_anchor_min_aliases
+            && (anchors == 0
+                || aliases
+                    > self
+                        .budget
+                        .alias_anchor_ratio_multiplier
+                        .saturating_mul(anchors))
+        {
+            Some(BudgetBreach::AliasAnchorRatio { aliases, anchors })
+        } else {
+            None
+        }
     }
 }
 
